@@ -21,12 +21,19 @@ fuzz_target!(|data: &[u8]| {
     if data.len() < 16 {
         return;
     }
-    let mut cfg = props::hist_cfg("C01", false).unwrap();
-    cfg.on = vec!["C01", "C02", "C03", "C04", "C05", "C06", "C08", "C11", "C12", "C13", "C15", "C19"];
-    cfg.mix.lowlevel = 0;
-    cfg.mix.rich = true;
-    cfg.max_len = 48;
-    let Some(case) = decode(data, &cfg) else { return };
+    // FUZZ_PROP selects one property's configuration and oracle set; default: a broad set
+    let cfg = match std::env::var("FUZZ_PROP").ok().and_then(|p| props::hist_cfg(&p, false)) {
+        Some(c) => c,
+        None => {
+            let mut c = props::hist_cfg("C01", false).unwrap();
+            c.on = vec!["C01", "C02", "C03", "C04", "C05", "C06", "C08", "C11", "C12", "C13", "C15", "C19"];
+            c
+        }
+    };
+    let Some(mut case) = decode(data, &cfg) else { return };
+    if !cfg.with_fin {
+        case.fin = None;
+    }
     let out = props::run_case(&cfg, &case);
     if let Err(f) = out.result {
         let msg = match f {
